@@ -170,32 +170,32 @@ EXTRA = {
  "C10": "finite-state exploration of in-place range filters (len(out)-i); call-order of class assembly; Offset/Column lock-step",
  "C11": "reader/writer agreement of the compressed rune map; checkpoint reset on every edge into the scan loop",
  "C12": "cursor step discipline; reader/writer agreement of the compressed rune map; checkpoint reset",
- "C13": "terminal-boundary comparison audit; separator placement under the recursion flag",
- "C14": "terminal-boundary comparison audit (44 sites); wrapper order of convertRules; escape analysis through callees that retain slices; renumbering coverage",
- "C15": "all-paths reachability of the set-contribution test",
+ "C13": "terminal-boundary comparison audit; separator placement under the recursion flag; path guard of dropped Empty children",
+ "C14": "scratch bit-set reset scopes; name-based provenance of Arg.TakeFrom; path guard of dropped Empty children; terminal-boundary comparison audit (48 sites); wrapper order of convertRules; escape analysis through callees that retain slices; renumbering coverage",
+ "C15": "all-paths reachability of the set-contribution test; first-match shape of the input seeding loop; copy-source guard of named-set slots",
  "C16": "marker-free remap counter; Pos coverage of extracted references; sharing-key and renumbering field coverage",
  "C17": "interning-pair rule; decision-table agreement of NeedsSession with the template's session struct; all-paths enumeration of file selection against template imports; call/definition arity agreement on template trees",
  "C18": "global map aliased through struct fields",
- "C19": "constant propagation of stream.recoveryMode; histogram reset range",
- "C20": "must-write analysis of Init for every run-state field of Lexer/Parser/TokenStream",
+ "C19": "constant propagation of stream.recoveryMode; histogram reset range; end-of-input guard of the token-skipping loop",
+ "C20": "must-write analysis of Init (and of parse() for Parser) for every run-state field of Lexer/Parser/TokenStream",
  "C21": "save/restore dominance; sibling check of the two Tarjan implementations; unconditional rule-class key components",
- "C22": "lookup-index guard; in-progress memo reachability; valid-anchor guard for optional nodes",
- "C23": "source-cursor bounds of the grammar lexer; sentinel-index guards in verbose conflict explanations",
+ "C22": "lookup-index guard; in-progress memo reachability and mark-before-descend dominance; valid-anchor guard for optional nodes; Origin coverage of every syntax.Expr literal",
+ "C23": "source-cursor bounds of the grammar lexer; sentinel-index guards in verbose conflict explanations; memoised recursions of the compiler",
  "C25": "in-place merge exploration; min-update idiom and Tarjan sibling checks",
- "C28": "explicit-id path check; non-empty return analysis of ident.Produce",
- "C29": "must-return of parser errors in ast.Parse",
- "C30": "three-copy agreement of %prec; Reference literals carry Model; kinds reaching ExprString",
+ "C28": "explicit-id path check; non-empty return analysis of ident.Produce; seeding coverage of the taken-name set of extracted nonterminals",
+ "C29": "must-return of parser errors in ast.Parse; monotonicity of the poll counter; identity of the error handler handed to the parser",
+ "C30": "three-copy agreement of %prec; Reference literals carry Model; kinds reaching ExprString; token-ID vs nonterminal-name namespace check",
 }
 
 CLAIMS.update({
- "C26": ("dominance/loop-nesting/operand-role rules over util/graph: min-update idiom, sibling check of the two Tarjan implementations, SCC stack pairing, pivot position of Warshall's loops, matrix cell codec, edge direction of Transpose, in-progress sentinel of LongestPath",
+ "C26": ("dominance/loop-nesting/loop-range/operand-role rules over util/graph: min-update idiom, sibling check of the two Tarjan implementations, SCC stack pairing, pivot position of Warshall's loops, matrix cell codec, edge direction of Transpose, in-progress sentinel of LongestPath",
          "Decides structural necessary conditions of the four graph routines: every low-link update of Tarjan is a true running minimum and the post-descent update propagates lowLink[child]; a component is emitted exactly under lowLink[v]==index[v] and its members leave onStack before the stack is cut; Closure's intermediate vertex is the outermost loop variable and the update joins the two tested edges; AddEdge/HasEdge/Graph agree on the cell i*n+e; Transpose sizes and fills the list of the edge's target with its source; LongestPath marks in-progress vertices -1, flags a cycle exactly on meeting one and returns nil under the flag. It does not decide that the computed components, closure or path are correct on every graph.",
          "Graphs are runtime values; order of components (reverse topological) and maximality of the longest path are algorithmic and not examined.",
          "A.2 (C26)"),
 })
 
 CLAIMS.update({
- "C27": ("dominance guard on the equality shortcut; governing-condition table of the hunk size counters; field lock-step of chunk.merge; AST mirror comparison of the edit-script base cases; finite-state exploration of the in-place chunk merge",
+ "C27": ("cursor provenance of hunk origins; strictness of the furthest-reaching selection in both Myers searches; arithmetic consistency of run abbreviation; taint of the diff text into format strings; dominance guard on the equality shortcut; governing-condition table of the hunk size counters; field lock-step of chunk.merge; AST mirror comparison of the edit-script base cases; finite-state exploration of the in-place chunk merge",
          "Decides structural necessary conditions of the line diff: equal texts return the empty diff before anything is computed; hunk.add counts context and removed lines on the left and context and added lines on the right of the @@ header; chunk.merge adds del, ins and eq each; the len(a)==1 and len(b)==1 base cases of the recursion are mirror images; the in-place merge of chunks never overwrites unread chunks. It does not decide minimality of the script (Myers' middle snake), that unequal texts render a non-empty diff, or that hunks apply.",
          "Minimality and hunk applicability are numerical/round-trip properties of runtime data and stay undecided; util/diff is used by tests only.",
          "A.2 (C27), 6"),
